@@ -339,11 +339,39 @@ func (an *Analysis) populateTypes(pa *packages.Package) {
 		an.handleType(typ, ctx)
 	}
 
+	// now that every struct is complete, merge the fields of the embedded structs
+	flattened := make(map[*Struct]bool)
+	for _, type_ := range an.Types {
+		if st, isStruct := type_.(*Struct); isStruct {
+			st.flattenEmbedded(flattened)
+		}
+	}
+
 	for _, type_ := range an.Types {
 		if st, isStruct := type_.(*Struct); isStruct {
 			st.setImplements(ctx.unions, an.Types)
 		}
 	}
+}
+
+// flattenEmbedded replaces the embedded struct fields by the fields
+// of the embedded struct (recursively)
+func (st *Struct) flattenEmbedded(done map[*Struct]bool) {
+	if done[st] {
+		return
+	}
+	done[st] = true
+
+	var out []StructField
+	for _, field := range st.Fields {
+		if embedded, isStruct := field.Type.(*Struct); isStruct && field.Field.Embedded() {
+			embedded.flattenEmbedded(done)
+			out = append(out, embedded.Fields...)
+		} else {
+			out = append(out, field)
+		}
+	}
+	st.Fields = out
 }
 
 // context stores the parameters need by the analysis,
@@ -369,12 +397,12 @@ func (an *Analysis) handleStructFields(typ *types.Struct, ctx context) []StructF
 		fieldType := an.handleType(field.Type(), ctx)
 
 		// to simplify, we do not fully support embedded fields :
-		// we only accept structs, and we merge the fields
+		// we only accept structs, and we merge the fields.
+		// The merge is defered to [flattenEmbedded], since the embedded struct
+		// may still be under analysis (and have no fields yet) at this point.
 		if field.Embedded() {
-			if st, isStruct := fieldType.(*Struct); isStruct {
+			if _, isStruct := fieldType.(*Struct); isStruct {
 				log.Printf("gomacro: embedded struct field %s will be flattened", field.Name())
-				out = append(out, st.Fields...)
-				continue
 			} else {
 				log.Printf("gomacro: field %s: embedding will be ignored", field.Name())
 			}
